@@ -256,7 +256,7 @@ end procedure;
 
 \* ---- doCompute (map.go:347, mapof.go:294); result in cres[self] ----
 procedure doCompute(kind, dk, dv, dfn)
-variables d_t = 0, d_b = 0, d_pos = <<0, 0>>, d_old = NilV, d_r = <<NilV, FALSE>>, d_ins = FALSE, d_fnres = <<NilV, FALSE>>, d_fndone = FALSE;
+variables d_t = 0, d_b = 0, d_pos = <<0, 0>>, d_old = NilV, d_r = <<NilV, FALSE>>, d_ins = FALSE, d_fnres = <<NilV, FALSE>>, d_fndone = FALSE, d_left = FALSE;
 begin
 DC0: if kind \in {"LoadOrStore", "LoadOrCompute"} then           \* read-only fast path
        call load(dk);
@@ -311,10 +311,11 @@ DD1: if Variant = "Map" then
 DD2: if Variant = "Map" then
        tabs[d_t].cells[d_b][d_pos[1]][d_pos[2]] := EmptySlot;    \* StorePointer(&b.keys[i], nil)
      end if;
-DDu: tabs[d_t].lock[d_b] := None;                                \* unlock
+DDu: d_left := (Variant = "Map" /\ ChainIsEmpty(tabs[d_t].cells[d_b])) \/ (Variant = "MapOf" /\ CellMetaEmpty(tabs[d_t].cells[d_b][d_pos[1]]));   \* leftEmpty (plain reads under the lock)
+     tabs[d_t].lock[d_b] := None;                                \* unlock
      cres[self] := [rv |-> d_old, ok |-> (kind # "Compute")];
 DDa: if SizeTarget = "modified" then tabs[d_t].size := tabs[d_t].size - 1; else tabs[cur].size := tabs[cur].size - 1; end if;   \* table.addSize(bidx, -1)
-DDs: if (Variant = "Map" /\ ChainIsEmpty(tabs[d_t].cells[d_b])) \/ (Variant = "MapOf" /\ CellMetaEmpty(tabs[d_t].cells[d_b][d_pos[1]])) then
+DDs: if d_left then
        call resize("shrink", d_t);                               \* might need to shrink the table
      end if;
 DDr: return;
@@ -432,13 +433,14 @@ NoDup(tab) == \A b \in 0..(tab.nb - 1), k \in Keys : Cardinality(FindKey(tab.cel
 
 VARIABLES hint, known, rz_t, rz_new, rz_b, rz_nb, rz_cnt, lk, l_t, l_b, l_c, 
           l_cand, l_s, l_v, l_k, kind, dk, dv, dfn, d_t, d_b, d_pos, d_old, 
-          d_r, d_ins, d_fnres, d_fndone, r_t, r_b, r_ents, r_i, c_t, ci
+          d_r, d_ins, d_fnres, d_fndone, d_left, r_t, r_b, r_ents, r_i, c_t, 
+          ci
 
 vars == << pc, tabs, cur, nextGen, resizing, rmu, waiters, clk, done, fncalls, 
            lres, cres, rvis, pcnt, stack, hint, known, rz_t, rz_new, rz_b, 
            rz_nb, rz_cnt, lk, l_t, l_b, l_c, l_cand, l_s, l_v, l_k, kind, dk, 
            dv, dfn, d_t, d_b, d_pos, d_old, d_r, d_ins, d_fnres, d_fndone, 
-           r_t, r_b, r_ents, r_i, c_t, ci >>
+           d_left, r_t, r_b, r_ents, r_i, c_t, ci >>
 
 ProcSet == (Threads)
 
@@ -486,6 +488,7 @@ Init == (* Global variables *)
         /\ d_ins = [ self \in ProcSet |-> FALSE]
         /\ d_fnres = [ self \in ProcSet |-> <<NilV, FALSE>>]
         /\ d_fndone = [ self \in ProcSet |-> FALSE]
+        /\ d_left = [ self \in ProcSet |-> FALSE]
         (* Procedure rangeAll *)
         /\ r_t = [ self \in ProcSet |-> 0]
         /\ r_b = [ self \in ProcSet |-> 0]
@@ -507,7 +510,7 @@ W1(self) == /\ pc[self] = "W1"
                             known, rz_t, rz_new, rz_b, rz_nb, rz_cnt, lk, l_t, 
                             l_b, l_c, l_cand, l_s, l_v, l_k, kind, dk, dv, dfn, 
                             d_t, d_b, d_pos, d_old, d_r, d_ins, d_fnres, 
-                            d_fndone, r_t, r_b, r_ents, r_i, c_t, ci >>
+                            d_fndone, d_left, r_t, r_b, r_ents, r_i, c_t, ci >>
 
 W2(self) == /\ pc[self] = "W2"
             /\ IF resizing
@@ -518,7 +521,7 @@ W2(self) == /\ pc[self] = "W2"
                             known, rz_t, rz_new, rz_b, rz_nb, rz_cnt, lk, l_t, 
                             l_b, l_c, l_cand, l_s, l_v, l_k, kind, dk, dv, dfn, 
                             d_t, d_b, d_pos, d_old, d_r, d_ins, d_fnres, 
-                            d_fndone, r_t, r_b, r_ents, r_i, c_t, ci >>
+                            d_fndone, d_left, r_t, r_b, r_ents, r_i, c_t, ci >>
 
 W3(self) == /\ pc[self] = "W3"
             /\ rmu' = None
@@ -528,8 +531,8 @@ W3(self) == /\ pc[self] = "W3"
                             lres, cres, rvis, pcnt, stack, hint, known, rz_t, 
                             rz_new, rz_b, rz_nb, rz_cnt, lk, l_t, l_b, l_c, 
                             l_cand, l_s, l_v, l_k, kind, dk, dv, dfn, d_t, d_b, 
-                            d_pos, d_old, d_r, d_ins, d_fnres, d_fndone, r_t, 
-                            r_b, r_ents, r_i, c_t, ci >>
+                            d_pos, d_old, d_r, d_ins, d_fnres, d_fndone, 
+                            d_left, r_t, r_b, r_ents, r_i, c_t, ci >>
 
 W3b(self) == /\ pc[self] = "W3b"
              /\ self \notin waiters
@@ -539,7 +542,8 @@ W3b(self) == /\ pc[self] = "W3b"
                              hint, known, rz_t, rz_new, rz_b, rz_nb, rz_cnt, 
                              lk, l_t, l_b, l_c, l_cand, l_s, l_v, l_k, kind, 
                              dk, dv, dfn, d_t, d_b, d_pos, d_old, d_r, d_ins, 
-                             d_fnres, d_fndone, r_t, r_b, r_ents, r_i, c_t, ci >>
+                             d_fnres, d_fndone, d_left, r_t, r_b, r_ents, r_i, 
+                             c_t, ci >>
 
 W3c(self) == /\ pc[self] = "W3c"
              /\ rmu = None
@@ -550,7 +554,7 @@ W3c(self) == /\ pc[self] = "W3c"
                              known, rz_t, rz_new, rz_b, rz_nb, rz_cnt, lk, l_t, 
                              l_b, l_c, l_cand, l_s, l_v, l_k, kind, dk, dv, 
                              dfn, d_t, d_b, d_pos, d_old, d_r, d_ins, d_fnres, 
-                             d_fndone, r_t, r_b, r_ents, r_i, c_t, ci >>
+                             d_fndone, d_left, r_t, r_b, r_ents, r_i, c_t, ci >>
 
 W4(self) == /\ pc[self] = "W4"
             /\ rmu' = None
@@ -560,8 +564,8 @@ W4(self) == /\ pc[self] = "W4"
                             fncalls, lres, cres, rvis, pcnt, hint, known, rz_t, 
                             rz_new, rz_b, rz_nb, rz_cnt, lk, l_t, l_b, l_c, 
                             l_cand, l_s, l_v, l_k, kind, dk, dv, dfn, d_t, d_b, 
-                            d_pos, d_old, d_r, d_ins, d_fnres, d_fndone, r_t, 
-                            r_b, r_ents, r_i, c_t, ci >>
+                            d_pos, d_old, d_r, d_ins, d_fnres, d_fndone, 
+                            d_left, r_t, r_b, r_ents, r_i, c_t, ci >>
 
 waitForResize(self) == W1(self) \/ W2(self) \/ W3(self) \/ W3b(self)
                           \/ W3c(self) \/ W4(self)
@@ -584,7 +588,7 @@ RZ0(self) == /\ pc[self] = "RZ0"
                              done, fncalls, lres, cres, rvis, pcnt, lk, l_t, 
                              l_b, l_c, l_cand, l_s, l_v, l_k, kind, dk, dv, 
                              dfn, d_t, d_b, d_pos, d_old, d_r, d_ins, d_fnres, 
-                             d_fndone, r_t, r_b, r_ents, r_i, c_t, ci >>
+                             d_fndone, d_left, r_t, r_b, r_ents, r_i, c_t, ci >>
 
 RZ1(self) == /\ pc[self] = "RZ1"
              /\ IF resizing
@@ -601,7 +605,7 @@ RZ1(self) == /\ pc[self] = "RZ1"
                              rz_t, rz_new, rz_b, rz_nb, rz_cnt, lk, l_t, l_b, 
                              l_c, l_cand, l_s, l_v, l_k, kind, dk, dv, dfn, 
                              d_t, d_b, d_pos, d_old, d_r, d_ins, d_fnres, 
-                             d_fndone, r_t, r_b, r_ents, r_i, c_t, ci >>
+                             d_fndone, d_left, r_t, r_b, r_ents, r_i, c_t, ci >>
 
 RZ1r(self) == /\ pc[self] = "RZ1r"
               /\ IF hint[self] = "clear" /\ ClearLoserRetries
@@ -621,7 +625,7 @@ RZ1r(self) == /\ pc[self] = "RZ1r"
                               done, fncalls, lres, cres, rvis, pcnt, lk, l_t, 
                               l_b, l_c, l_cand, l_s, l_v, l_k, kind, dk, dv, 
                               dfn, d_t, d_b, d_pos, d_old, d_r, d_ins, d_fnres, 
-                              d_fndone, r_t, r_b, r_ents, r_i, c_t, ci >>
+                              d_fndone, d_left, r_t, r_b, r_ents, r_i, c_t, ci >>
 
 RZ2(self) == /\ pc[self] = "RZ2"
              /\ rz_t' = [rz_t EXCEPT ![self] = cur]
@@ -639,7 +643,8 @@ RZ2(self) == /\ pc[self] = "RZ2"
                              lres, cres, rvis, pcnt, stack, hint, known, lk, 
                              l_t, l_b, l_c, l_cand, l_s, l_v, l_k, kind, dk, 
                              dv, dfn, d_t, d_b, d_pos, d_old, d_r, d_ins, 
-                             d_fnres, d_fndone, r_t, r_b, r_ents, r_i, c_t, ci >>
+                             d_fnres, d_fndone, d_left, r_t, r_b, r_ents, r_i, 
+                             c_t, ci >>
 
 RZc(self) == /\ pc[self] = "RZc"
              /\ IF hint[self] # "clear" /\ rz_b[self] < tabs[rz_t[self]].nb
@@ -652,7 +657,7 @@ RZc(self) == /\ pc[self] = "RZc"
                              known, rz_t, rz_new, rz_b, rz_nb, rz_cnt, lk, l_t, 
                              l_b, l_c, l_cand, l_s, l_v, l_k, kind, dk, dv, 
                              dfn, d_t, d_b, d_pos, d_old, d_r, d_ins, d_fnres, 
-                             d_fndone, r_t, r_b, r_ents, r_i, c_t, ci >>
+                             d_fndone, d_left, r_t, r_b, r_ents, r_i, c_t, ci >>
 
 RZl(self) == /\ pc[self] = "RZl"
              /\ IF CopyLocksBuckets
@@ -666,7 +671,7 @@ RZl(self) == /\ pc[self] = "RZl"
                              known, rz_t, rz_new, rz_b, rz_nb, rz_cnt, lk, l_t, 
                              l_b, l_c, l_cand, l_s, l_v, l_k, kind, dk, dv, 
                              dfn, d_t, d_b, d_pos, d_old, d_r, d_ins, d_fnres, 
-                             d_fndone, r_t, r_b, r_ents, r_i, c_t, ci >>
+                             d_fndone, d_left, r_t, r_b, r_ents, r_i, c_t, ci >>
 
 RZu(self) == /\ pc[self] = "RZu"
              /\ tabs' = [tabs EXCEPT ![rz_new[self]] = PutAll(tabs[rz_new[self]], LiveEntries(tabs[rz_t[self]].cells[rz_b[self]])),
@@ -679,7 +684,7 @@ RZu(self) == /\ pc[self] = "RZu"
                              known, rz_t, rz_new, rz_nb, lk, l_t, l_b, l_c, 
                              l_cand, l_s, l_v, l_k, kind, dk, dv, dfn, d_t, 
                              d_b, d_pos, d_old, d_r, d_ins, d_fnres, d_fndone, 
-                             r_t, r_b, r_ents, r_i, c_t, ci >>
+                             d_left, r_t, r_b, r_ents, r_i, c_t, ci >>
 
 RZ4(self) == /\ pc[self] = "RZ4"
              /\ IF PublishBeforeFlagClear
@@ -692,7 +697,7 @@ RZ4(self) == /\ pc[self] = "RZ4"
                              known, rz_t, rz_new, rz_b, rz_nb, rz_cnt, lk, l_t, 
                              l_b, l_c, l_cand, l_s, l_v, l_k, kind, dk, dv, 
                              dfn, d_t, d_b, d_pos, d_old, d_r, d_ins, d_fnres, 
-                             d_fndone, r_t, r_b, r_ents, r_i, c_t, ci >>
+                             d_fndone, d_left, r_t, r_b, r_ents, r_i, c_t, ci >>
 
 RZ5(self) == /\ pc[self] = "RZ5"
              /\ rmu = None
@@ -703,7 +708,7 @@ RZ5(self) == /\ pc[self] = "RZ5"
                              known, rz_t, rz_new, rz_b, rz_nb, rz_cnt, lk, l_t, 
                              l_b, l_c, l_cand, l_s, l_v, l_k, kind, dk, dv, 
                              dfn, d_t, d_b, d_pos, d_old, d_r, d_ins, d_fnres, 
-                             d_fndone, r_t, r_b, r_ents, r_i, c_t, ci >>
+                             d_fndone, d_left, r_t, r_b, r_ents, r_i, c_t, ci >>
 
 RZ6(self) == /\ pc[self] = "RZ6"
              /\ resizing' = FALSE
@@ -713,7 +718,7 @@ RZ6(self) == /\ pc[self] = "RZ6"
                              known, rz_t, rz_new, rz_b, rz_nb, rz_cnt, lk, l_t, 
                              l_b, l_c, l_cand, l_s, l_v, l_k, kind, dk, dv, 
                              dfn, d_t, d_b, d_pos, d_old, d_r, d_ins, d_fnres, 
-                             d_fndone, r_t, r_b, r_ents, r_i, c_t, ci >>
+                             d_fndone, d_left, r_t, r_b, r_ents, r_i, c_t, ci >>
 
 RZ7(self) == /\ pc[self] = "RZ7"
              /\ IF BroadcastOnResizeEnd
@@ -726,7 +731,7 @@ RZ7(self) == /\ pc[self] = "RZ7"
                              known, rz_t, rz_new, rz_b, rz_nb, rz_cnt, lk, l_t, 
                              l_b, l_c, l_cand, l_s, l_v, l_k, kind, dk, dv, 
                              dfn, d_t, d_b, d_pos, d_old, d_r, d_ins, d_fnres, 
-                             d_fndone, r_t, r_b, r_ents, r_i, c_t, ci >>
+                             d_fndone, d_left, r_t, r_b, r_ents, r_i, c_t, ci >>
 
 RZ8(self) == /\ pc[self] = "RZ8"
              /\ rmu' = None
@@ -738,7 +743,7 @@ RZ8(self) == /\ pc[self] = "RZ8"
                              known, rz_t, rz_new, rz_b, rz_nb, rz_cnt, lk, l_t, 
                              l_b, l_c, l_cand, l_s, l_v, l_k, kind, dk, dv, 
                              dfn, d_t, d_b, d_pos, d_old, d_r, d_ins, d_fnres, 
-                             d_fndone, r_t, r_b, r_ents, r_i, c_t, ci >>
+                             d_fndone, d_left, r_t, r_b, r_ents, r_i, c_t, ci >>
 
 RZ9(self) == /\ pc[self] = "RZ9"
              /\ cur' = rz_new[self]
@@ -748,7 +753,7 @@ RZ9(self) == /\ pc[self] = "RZ9"
                              known, rz_t, rz_new, rz_b, rz_nb, rz_cnt, lk, l_t, 
                              l_b, l_c, l_cand, l_s, l_v, l_k, kind, dk, dv, 
                              dfn, d_t, d_b, d_pos, d_old, d_r, d_ins, d_fnres, 
-                             d_fndone, r_t, r_b, r_ents, r_i, c_t, ci >>
+                             d_fndone, d_left, r_t, r_b, r_ents, r_i, c_t, ci >>
 
 RZr(self) == /\ pc[self] = "RZr"
              /\ pc' = [pc EXCEPT ![self] = Head(stack[self]).pc]
@@ -764,7 +769,7 @@ RZr(self) == /\ pc[self] = "RZr"
                              done, fncalls, lres, cres, rvis, pcnt, lk, l_t, 
                              l_b, l_c, l_cand, l_s, l_v, l_k, kind, dk, dv, 
                              dfn, d_t, d_b, d_pos, d_old, d_r, d_ins, d_fnres, 
-                             d_fndone, r_t, r_b, r_ents, r_i, c_t, ci >>
+                             d_fndone, d_left, r_t, r_b, r_ents, r_i, c_t, ci >>
 
 RZa(self) == /\ pc[self] = "RZa"
              /\ rmu = None
@@ -775,7 +780,7 @@ RZa(self) == /\ pc[self] = "RZa"
                              known, rz_t, rz_new, rz_b, rz_nb, rz_cnt, lk, l_t, 
                              l_b, l_c, l_cand, l_s, l_v, l_k, kind, dk, dv, 
                              dfn, d_t, d_b, d_pos, d_old, d_r, d_ins, d_fnres, 
-                             d_fndone, r_t, r_b, r_ents, r_i, c_t, ci >>
+                             d_fndone, d_left, r_t, r_b, r_ents, r_i, c_t, ci >>
 
 RZa2(self) == /\ pc[self] = "RZa2"
               /\ resizing' = FALSE
@@ -785,8 +790,8 @@ RZa2(self) == /\ pc[self] = "RZa2"
                               known, rz_t, rz_new, rz_b, rz_nb, rz_cnt, lk, 
                               l_t, l_b, l_c, l_cand, l_s, l_v, l_k, kind, dk, 
                               dv, dfn, d_t, d_b, d_pos, d_old, d_r, d_ins, 
-                              d_fnres, d_fndone, r_t, r_b, r_ents, r_i, c_t, 
-                              ci >>
+                              d_fnres, d_fndone, d_left, r_t, r_b, r_ents, r_i, 
+                              c_t, ci >>
 
 RZa3(self) == /\ pc[self] = "RZa3"
               /\ waiters' = {}
@@ -796,8 +801,8 @@ RZa3(self) == /\ pc[self] = "RZa3"
                               known, rz_t, rz_new, rz_b, rz_nb, rz_cnt, lk, 
                               l_t, l_b, l_c, l_cand, l_s, l_v, l_k, kind, dk, 
                               dv, dfn, d_t, d_b, d_pos, d_old, d_r, d_ins, 
-                              d_fnres, d_fndone, r_t, r_b, r_ents, r_i, c_t, 
-                              ci >>
+                              d_fnres, d_fndone, d_left, r_t, r_b, r_ents, r_i, 
+                              c_t, ci >>
 
 RZa4(self) == /\ pc[self] = "RZa4"
               /\ rmu' = None
@@ -814,7 +819,7 @@ RZa4(self) == /\ pc[self] = "RZa4"
                               fncalls, lres, cres, rvis, pcnt, lk, l_t, l_b, 
                               l_c, l_cand, l_s, l_v, l_k, kind, dk, dv, dfn, 
                               d_t, d_b, d_pos, d_old, d_r, d_ins, d_fnres, 
-                              d_fndone, r_t, r_b, r_ents, r_i, c_t, ci >>
+                              d_fndone, d_left, r_t, r_b, r_ents, r_i, c_t, ci >>
 
 resize(self) == RZ0(self) \/ RZ1(self) \/ RZ1r(self) \/ RZ2(self)
                    \/ RZc(self) \/ RZl(self) \/ RZu(self) \/ RZ4(self)
@@ -831,8 +836,8 @@ L1(self) == /\ pc[self] = "L1"
                             done, fncalls, lres, cres, rvis, pcnt, stack, hint, 
                             known, rz_t, rz_new, rz_b, rz_nb, rz_cnt, lk, 
                             l_cand, l_s, l_v, l_k, kind, dk, dv, dfn, d_t, d_b, 
-                            d_pos, d_old, d_r, d_ins, d_fnres, d_fndone, r_t, 
-                            r_b, r_ents, r_i, c_t, ci >>
+                            d_pos, d_old, d_r, d_ins, d_fnres, d_fndone, 
+                            d_left, r_t, r_b, r_ents, r_i, c_t, ci >>
 
 L2(self) == /\ pc[self] = "L2"
             /\ l_cand' = [l_cand EXCEPT ![self] = {s \in 1..Slots : tabs[l_t[self]].cells[l_b[self]][l_c[self]][s].pres /\ tabs[l_t[self]].cells[l_b[self]][l_c[self]][s].hsh = HH[lk[self]]}]
@@ -842,7 +847,7 @@ L2(self) == /\ pc[self] = "L2"
                             known, rz_t, rz_new, rz_b, rz_nb, rz_cnt, lk, l_t, 
                             l_b, l_c, l_s, l_v, l_k, kind, dk, dv, dfn, d_t, 
                             d_b, d_pos, d_old, d_r, d_ins, d_fnres, d_fndone, 
-                            r_t, r_b, r_ents, r_i, c_t, ci >>
+                            d_left, r_t, r_b, r_ents, r_i, c_t, ci >>
 
 L3(self) == /\ pc[self] = "L3"
             /\ IF l_cand[self] # {}
@@ -857,7 +862,7 @@ L3(self) == /\ pc[self] = "L3"
                             known, rz_t, rz_new, rz_b, rz_nb, rz_cnt, lk, l_t, 
                             l_b, l_c, l_cand, l_v, l_k, kind, dk, dv, dfn, d_t, 
                             d_b, d_pos, d_old, d_r, d_ins, d_fnres, d_fndone, 
-                            r_t, r_b, r_ents, r_i, c_t, ci >>
+                            d_left, r_t, r_b, r_ents, r_i, c_t, ci >>
 
 L3n(self) == /\ pc[self] = "L3n"
              /\ l_cand' = [l_cand EXCEPT ![self] = l_cand[self] \ {l_s[self]}]
@@ -867,7 +872,7 @@ L3n(self) == /\ pc[self] = "L3n"
                              hint, known, rz_t, rz_new, rz_b, rz_nb, rz_cnt, 
                              lk, l_t, l_b, l_c, l_s, l_v, l_k, kind, dk, dv, 
                              dfn, d_t, d_b, d_pos, d_old, d_r, d_ins, d_fnres, 
-                             d_fndone, r_t, r_b, r_ents, r_i, c_t, ci >>
+                             d_fndone, d_left, r_t, r_b, r_ents, r_i, c_t, ci >>
 
 L3e(self) == /\ pc[self] = "L3e"
              /\ IF tabs[l_t[self]].cells[l_b[self]][l_c[self]][l_s[self]].key = lk[self]
@@ -889,7 +894,7 @@ L3e(self) == /\ pc[self] = "L3e"
                              done, fncalls, cres, rvis, pcnt, hint, known, 
                              rz_t, rz_new, rz_b, rz_nb, rz_cnt, kind, dk, dv, 
                              dfn, d_t, d_b, d_pos, d_old, d_r, d_ins, d_fnres, 
-                             d_fndone, r_t, r_b, r_ents, r_i, c_t, ci >>
+                             d_fndone, d_left, r_t, r_b, r_ents, r_i, c_t, ci >>
 
 L3v(self) == /\ pc[self] = "L3v"
              /\ l_v' = [l_v EXCEPT ![self] = tabs[l_t[self]].cells[l_b[self]][l_c[self]][l_s[self]].val]
@@ -899,7 +904,7 @@ L3v(self) == /\ pc[self] = "L3v"
                              hint, known, rz_t, rz_new, rz_b, rz_nb, rz_cnt, 
                              lk, l_t, l_b, l_c, l_cand, l_s, l_k, kind, dk, dv, 
                              dfn, d_t, d_b, d_pos, d_old, d_r, d_ins, d_fnres, 
-                             d_fndone, r_t, r_b, r_ents, r_i, c_t, ci >>
+                             d_fndone, d_left, r_t, r_b, r_ents, r_i, c_t, ci >>
 
 L3k(self) == /\ pc[self] = "L3k"
              /\ l_k' = [l_k EXCEPT ![self] = tabs[l_t[self]].cells[l_b[self]][l_c[self]][l_s[self]].key]
@@ -909,7 +914,7 @@ L3k(self) == /\ pc[self] = "L3k"
                              hint, known, rz_t, rz_new, rz_b, rz_nb, rz_cnt, 
                              lk, l_t, l_b, l_c, l_cand, l_s, l_v, kind, dk, dv, 
                              dfn, d_t, d_b, d_pos, d_old, d_r, d_ins, d_fnres, 
-                             d_fndone, r_t, r_b, r_ents, r_i, c_t, ci >>
+                             d_fndone, d_left, r_t, r_b, r_ents, r_i, c_t, ci >>
 
 L3c(self) == /\ pc[self] = "L3c"
              /\ IF l_k[self] # NilK /\ l_v[self] # NilV /\ l_k[self] = lk[self]
@@ -935,7 +940,7 @@ L3c(self) == /\ pc[self] = "L3c"
                              done, fncalls, cres, rvis, pcnt, hint, known, 
                              rz_t, rz_new, rz_b, rz_nb, rz_cnt, kind, dk, dv, 
                              dfn, d_t, d_b, d_pos, d_old, d_r, d_ins, d_fnres, 
-                             d_fndone, r_t, r_b, r_ents, r_i, c_t, ci >>
+                             d_fndone, d_left, r_t, r_b, r_ents, r_i, c_t, ci >>
 
 L3r(self) == /\ pc[self] = "L3r"
              /\ IF tabs[l_t[self]].cells[l_b[self]][l_c[self]][l_s[self]].val = l_v[self]
@@ -957,7 +962,7 @@ L3r(self) == /\ pc[self] = "L3r"
                              done, fncalls, cres, rvis, pcnt, hint, known, 
                              rz_t, rz_new, rz_b, rz_nb, rz_cnt, kind, dk, dv, 
                              dfn, d_t, d_b, d_pos, d_old, d_r, d_ins, d_fnres, 
-                             d_fndone, r_t, r_b, r_ents, r_i, c_t, ci >>
+                             d_fndone, d_left, r_t, r_b, r_ents, r_i, c_t, ci >>
 
 L4(self) == /\ pc[self] = "L4"
             /\ IF l_c[self] < Len(tabs[l_t[self]].cells[l_b[self]])
@@ -980,7 +985,7 @@ L4(self) == /\ pc[self] = "L4"
                             done, fncalls, cres, rvis, pcnt, hint, known, rz_t, 
                             rz_new, rz_b, rz_nb, rz_cnt, kind, dk, dv, dfn, 
                             d_t, d_b, d_pos, d_old, d_r, d_ins, d_fnres, 
-                            d_fndone, r_t, r_b, r_ents, r_i, c_t, ci >>
+                            d_fndone, d_left, r_t, r_b, r_ents, r_i, c_t, ci >>
 
 load(self) == L1(self) \/ L2(self) \/ L3(self) \/ L3n(self) \/ L3e(self)
                  \/ L3v(self) \/ L3k(self) \/ L3c(self) \/ L3r(self)
@@ -1015,7 +1020,8 @@ DC0(self) == /\ pc[self] = "DC0"
                              done, fncalls, lres, cres, rvis, pcnt, hint, 
                              known, rz_t, rz_new, rz_b, rz_nb, rz_cnt, kind, 
                              dk, dv, dfn, d_t, d_b, d_pos, d_old, d_r, d_ins, 
-                             d_fnres, d_fndone, r_t, r_b, r_ents, r_i, c_t, ci >>
+                             d_fnres, d_fndone, d_left, r_t, r_b, r_ents, r_i, 
+                             c_t, ci >>
 
 DC0r(self) == /\ pc[self] = "DC0r"
               /\ IF lres[self].ok
@@ -1029,6 +1035,7 @@ DC0r(self) == /\ pc[self] = "DC0r"
                          /\ d_ins' = [d_ins EXCEPT ![self] = Head(stack[self]).d_ins]
                          /\ d_fnres' = [d_fnres EXCEPT ![self] = Head(stack[self]).d_fnres]
                          /\ d_fndone' = [d_fndone EXCEPT ![self] = Head(stack[self]).d_fndone]
+                         /\ d_left' = [d_left EXCEPT ![self] = Head(stack[self]).d_left]
                          /\ kind' = [kind EXCEPT ![self] = Head(stack[self]).kind]
                          /\ dk' = [dk EXCEPT ![self] = Head(stack[self]).dk]
                          /\ dv' = [dv EXCEPT ![self] = Head(stack[self]).dv]
@@ -1037,7 +1044,7 @@ DC0r(self) == /\ pc[self] = "DC0r"
                     ELSE /\ pc' = [pc EXCEPT ![self] = "DC1"]
                          /\ UNCHANGED << cres, stack, kind, dk, dv, dfn, d_t, 
                                          d_b, d_pos, d_old, d_r, d_ins, 
-                                         d_fnres, d_fndone >>
+                                         d_fnres, d_fndone, d_left >>
               /\ UNCHANGED << tabs, cur, nextGen, resizing, rmu, waiters, clk, 
                               done, fncalls, lres, rvis, pcnt, hint, known, 
                               rz_t, rz_new, rz_b, rz_nb, rz_cnt, lk, l_t, l_b, 
@@ -1053,7 +1060,7 @@ DC1(self) == /\ pc[self] = "DC1"
                              hint, known, rz_t, rz_new, rz_b, rz_nb, rz_cnt, 
                              lk, l_t, l_b, l_c, l_cand, l_s, l_v, l_k, kind, 
                              dk, dv, dfn, d_pos, d_old, d_r, d_ins, d_fnres, 
-                             d_fndone, r_t, r_b, r_ents, r_i, c_t, ci >>
+                             d_fndone, d_left, r_t, r_b, r_ents, r_i, c_t, ci >>
 
 DC2(self) == /\ pc[self] = "DC2"
              /\ tabs[d_t[self]].lock[d_b[self]] = None
@@ -1064,7 +1071,7 @@ DC2(self) == /\ pc[self] = "DC2"
                              known, rz_t, rz_new, rz_b, rz_nb, rz_cnt, lk, l_t, 
                              l_b, l_c, l_cand, l_s, l_v, l_k, kind, dk, dv, 
                              dfn, d_t, d_b, d_pos, d_old, d_r, d_ins, d_fnres, 
-                             d_fndone, r_t, r_b, r_ents, r_i, c_t, ci >>
+                             d_fndone, d_left, r_t, r_b, r_ents, r_i, c_t, ci >>
 
 DC3(self) == /\ pc[self] = "DC3"
              /\ IF CheckOrder \in {"flag-table", "flag-only"}
@@ -1081,7 +1088,8 @@ DC3(self) == /\ pc[self] = "DC3"
                              hint, known, rz_t, rz_new, rz_b, rz_nb, rz_cnt, 
                              lk, l_t, l_b, l_c, l_cand, l_s, l_v, l_k, kind, 
                              dk, dv, dfn, d_t, d_b, d_pos, d_old, d_r, d_ins, 
-                             d_fnres, d_fndone, r_t, r_b, r_ents, r_i, c_t, ci >>
+                             d_fnres, d_fndone, d_left, r_t, r_b, r_ents, r_i, 
+                             c_t, ci >>
 
 DC3u(self) == /\ pc[self] = "DC3u"
               /\ tabs' = [tabs EXCEPT ![d_t[self]].lock[d_b[self]] = None]
@@ -1094,7 +1102,7 @@ DC3u(self) == /\ pc[self] = "DC3u"
                               rz_t, rz_new, rz_b, rz_nb, rz_cnt, lk, l_t, l_b, 
                               l_c, l_cand, l_s, l_v, l_k, kind, dk, dv, dfn, 
                               d_t, d_b, d_pos, d_old, d_r, d_ins, d_fnres, 
-                              d_fndone, r_t, r_b, r_ents, r_i, c_t, ci >>
+                              d_fndone, d_left, r_t, r_b, r_ents, r_i, c_t, ci >>
 
 DC3g(self) == /\ pc[self] = "DC3g"
               /\ pc' = [pc EXCEPT ![self] = "DC1"]
@@ -1103,8 +1111,8 @@ DC3g(self) == /\ pc[self] = "DC3g"
                               hint, known, rz_t, rz_new, rz_b, rz_nb, rz_cnt, 
                               lk, l_t, l_b, l_c, l_cand, l_s, l_v, l_k, kind, 
                               dk, dv, dfn, d_t, d_b, d_pos, d_old, d_r, d_ins, 
-                              d_fnres, d_fndone, r_t, r_b, r_ents, r_i, c_t, 
-                              ci >>
+                              d_fnres, d_fndone, d_left, r_t, r_b, r_ents, r_i, 
+                              c_t, ci >>
 
 DC3v(self) == /\ pc[self] = "DC3v"
               /\ IF UnlockOnNewerTable
@@ -1117,8 +1125,8 @@ DC3v(self) == /\ pc[self] = "DC3v"
                               known, rz_t, rz_new, rz_b, rz_nb, rz_cnt, lk, 
                               l_t, l_b, l_c, l_cand, l_s, l_v, l_k, kind, dk, 
                               dv, dfn, d_t, d_b, d_pos, d_old, d_r, d_ins, 
-                              d_fnres, d_fndone, r_t, r_b, r_ents, r_i, c_t, 
-                              ci >>
+                              d_fnres, d_fndone, d_left, r_t, r_b, r_ents, r_i, 
+                              c_t, ci >>
 
 DC4(self) == /\ pc[self] = "DC4"
              /\ IF CheckOrder = "flag-table"
@@ -1135,7 +1143,8 @@ DC4(self) == /\ pc[self] = "DC4"
                              hint, known, rz_t, rz_new, rz_b, rz_nb, rz_cnt, 
                              lk, l_t, l_b, l_c, l_cand, l_s, l_v, l_k, kind, 
                              dk, dv, dfn, d_t, d_b, d_pos, d_old, d_r, d_ins, 
-                             d_fnres, d_fndone, r_t, r_b, r_ents, r_i, c_t, ci >>
+                             d_fnres, d_fndone, d_left, r_t, r_b, r_ents, r_i, 
+                             c_t, ci >>
 
 DC4u(self) == /\ pc[self] = "DC4u"
               /\ IF UnlockOnNewerTable
@@ -1148,8 +1157,8 @@ DC4u(self) == /\ pc[self] = "DC4u"
                               known, rz_t, rz_new, rz_b, rz_nb, rz_cnt, lk, 
                               l_t, l_b, l_c, l_cand, l_s, l_v, l_k, kind, dk, 
                               dv, dfn, d_t, d_b, d_pos, d_old, d_r, d_ins, 
-                              d_fnres, d_fndone, r_t, r_b, r_ents, r_i, c_t, 
-                              ci >>
+                              d_fnres, d_fndone, d_left, r_t, r_b, r_ents, r_i, 
+                              c_t, ci >>
 
 DC4v(self) == /\ pc[self] = "DC4v"
               /\ tabs' = [tabs EXCEPT ![d_t[self]].lock[d_b[self]] = None]
@@ -1162,7 +1171,7 @@ DC4v(self) == /\ pc[self] = "DC4v"
                               rz_t, rz_new, rz_b, rz_nb, rz_cnt, lk, l_t, l_b, 
                               l_c, l_cand, l_s, l_v, l_k, kind, dk, dv, dfn, 
                               d_t, d_b, d_pos, d_old, d_r, d_ins, d_fnres, 
-                              d_fndone, r_t, r_b, r_ents, r_i, c_t, ci >>
+                              d_fndone, d_left, r_t, r_b, r_ents, r_i, c_t, ci >>
 
 DC4g(self) == /\ pc[self] = "DC4g"
               /\ pc' = [pc EXCEPT ![self] = "DC1"]
@@ -1171,8 +1180,8 @@ DC4g(self) == /\ pc[self] = "DC4g"
                               hint, known, rz_t, rz_new, rz_b, rz_nb, rz_cnt, 
                               lk, l_t, l_b, l_c, l_cand, l_s, l_v, l_k, kind, 
                               dk, dv, dfn, d_t, d_b, d_pos, d_old, d_r, d_ins, 
-                              d_fnres, d_fndone, r_t, r_b, r_ents, r_i, c_t, 
-                              ci >>
+                              d_fnres, d_fndone, d_left, r_t, r_b, r_ents, r_i, 
+                              c_t, ci >>
 
 DC5(self) == /\ pc[self] = "DC5"
              /\ IF FindKey(tabs[d_t[self]].cells[d_b[self]], dk[self]) # {}
@@ -1195,8 +1204,8 @@ DC5(self) == /\ pc[self] = "DC5"
                              done, fncalls, lres, rvis, pcnt, stack, hint, 
                              known, rz_t, rz_new, rz_b, rz_nb, rz_cnt, lk, l_t, 
                              l_b, l_c, l_cand, l_s, l_v, l_k, kind, dk, dv, 
-                             dfn, d_t, d_b, d_r, d_fnres, d_fndone, r_t, r_b, 
-                             r_ents, r_i, c_t, ci >>
+                             dfn, d_t, d_b, d_r, d_fnres, d_fndone, d_left, 
+                             r_t, r_b, r_ents, r_i, c_t, ci >>
 
 DF1(self) == /\ pc[self] = "DF1"
              /\ d_r' = [d_r EXCEPT ![self] = IF kind[self] = "Compute" THEN FnResult(dfn[self], dv[self], d_old[self], TRUE) ELSE IF kind[self] \in {"LoadAndDelete", "Delete"} THEN <<d_old[self], TRUE>> ELSE <<dv[self], FALSE>>]
@@ -1209,7 +1218,7 @@ DF1(self) == /\ pc[self] = "DF1"
                              rz_t, rz_new, rz_b, rz_nb, rz_cnt, lk, l_t, l_b, 
                              l_c, l_cand, l_s, l_v, l_k, kind, dk, dv, dfn, 
                              d_t, d_b, d_pos, d_old, d_ins, d_fnres, d_fndone, 
-                             r_t, r_b, r_ents, r_i, c_t, ci >>
+                             d_left, r_t, r_b, r_ents, r_i, c_t, ci >>
 
 DD0(self) == /\ pc[self] = "DD0"
              /\ tabs' = [tabs EXCEPT ![d_t[self]].cells[d_b[self]][d_pos[self][1]][d_pos[self][2]].pres = FALSE]
@@ -1219,7 +1228,7 @@ DD0(self) == /\ pc[self] = "DD0"
                              known, rz_t, rz_new, rz_b, rz_nb, rz_cnt, lk, l_t, 
                              l_b, l_c, l_cand, l_s, l_v, l_k, kind, dk, dv, 
                              dfn, d_t, d_b, d_pos, d_old, d_r, d_ins, d_fnres, 
-                             d_fndone, r_t, r_b, r_ents, r_i, c_t, ci >>
+                             d_fndone, d_left, r_t, r_b, r_ents, r_i, c_t, ci >>
 
 DD1(self) == /\ pc[self] = "DD1"
              /\ IF Variant = "Map"
@@ -1231,7 +1240,7 @@ DD1(self) == /\ pc[self] = "DD1"
                              known, rz_t, rz_new, rz_b, rz_nb, rz_cnt, lk, l_t, 
                              l_b, l_c, l_cand, l_s, l_v, l_k, kind, dk, dv, 
                              dfn, d_t, d_b, d_pos, d_old, d_r, d_ins, d_fnres, 
-                             d_fndone, r_t, r_b, r_ents, r_i, c_t, ci >>
+                             d_fndone, d_left, r_t, r_b, r_ents, r_i, c_t, ci >>
 
 DD2(self) == /\ pc[self] = "DD2"
              /\ IF Variant = "Map"
@@ -1244,9 +1253,10 @@ DD2(self) == /\ pc[self] = "DD2"
                              known, rz_t, rz_new, rz_b, rz_nb, rz_cnt, lk, l_t, 
                              l_b, l_c, l_cand, l_s, l_v, l_k, kind, dk, dv, 
                              dfn, d_t, d_b, d_pos, d_old, d_r, d_ins, d_fnres, 
-                             d_fndone, r_t, r_b, r_ents, r_i, c_t, ci >>
+                             d_fndone, d_left, r_t, r_b, r_ents, r_i, c_t, ci >>
 
 DDu(self) == /\ pc[self] = "DDu"
+             /\ d_left' = [d_left EXCEPT ![self] = (Variant = "Map" /\ ChainIsEmpty(tabs[d_t[self]].cells[d_b[self]])) \/ (Variant = "MapOf" /\ CellMetaEmpty(tabs[d_t[self]].cells[d_b[self]][d_pos[self][1]]))]
              /\ tabs' = [tabs EXCEPT ![d_t[self]].lock[d_b[self]] = None]
              /\ cres' = [cres EXCEPT ![self] = [rv |-> d_old[self], ok |-> (kind[self] # "Compute")]]
              /\ pc' = [pc EXCEPT ![self] = "DDa"]
@@ -1267,10 +1277,10 @@ DDa(self) == /\ pc[self] = "DDa"
                              known, rz_t, rz_new, rz_b, rz_nb, rz_cnt, lk, l_t, 
                              l_b, l_c, l_cand, l_s, l_v, l_k, kind, dk, dv, 
                              dfn, d_t, d_b, d_pos, d_old, d_r, d_ins, d_fnres, 
-                             d_fndone, r_t, r_b, r_ents, r_i, c_t, ci >>
+                             d_fndone, d_left, r_t, r_b, r_ents, r_i, c_t, ci >>
 
 DDs(self) == /\ pc[self] = "DDs"
-             /\ IF (Variant = "Map" /\ ChainIsEmpty(tabs[d_t[self]].cells[d_b[self]])) \/ (Variant = "MapOf" /\ CellMetaEmpty(tabs[d_t[self]].cells[d_b[self]][d_pos[self][1]]))
+             /\ IF d_left[self]
                    THEN /\ /\ hint' = [hint EXCEPT ![self] = "shrink"]
                            /\ known' = [known EXCEPT ![self] = d_t[self]]
                            /\ stack' = [stack EXCEPT ![self] = << [ procedure |->  "resize",
@@ -1296,7 +1306,7 @@ DDs(self) == /\ pc[self] = "DDs"
                              done, fncalls, lres, cres, rvis, pcnt, lk, l_t, 
                              l_b, l_c, l_cand, l_s, l_v, l_k, kind, dk, dv, 
                              dfn, d_t, d_b, d_pos, d_old, d_r, d_ins, d_fnres, 
-                             d_fndone, r_t, r_b, r_ents, r_i, c_t, ci >>
+                             d_fndone, d_left, r_t, r_b, r_ents, r_i, c_t, ci >>
 
 DDr(self) == /\ pc[self] = "DDr"
              /\ pc' = [pc EXCEPT ![self] = Head(stack[self]).pc]
@@ -1308,6 +1318,7 @@ DDr(self) == /\ pc[self] = "DDr"
              /\ d_ins' = [d_ins EXCEPT ![self] = Head(stack[self]).d_ins]
              /\ d_fnres' = [d_fnres EXCEPT ![self] = Head(stack[self]).d_fnres]
              /\ d_fndone' = [d_fndone EXCEPT ![self] = Head(stack[self]).d_fndone]
+             /\ d_left' = [d_left EXCEPT ![self] = Head(stack[self]).d_left]
              /\ kind' = [kind EXCEPT ![self] = Head(stack[self]).kind]
              /\ dk' = [dk EXCEPT ![self] = Head(stack[self]).dk]
              /\ dv' = [dv EXCEPT ![self] = Head(stack[self]).dv]
@@ -1328,7 +1339,7 @@ DS1(self) == /\ pc[self] = "DS1"
                              rz_t, rz_new, rz_b, rz_nb, rz_cnt, lk, l_t, l_b, 
                              l_c, l_cand, l_s, l_v, l_k, kind, dk, dv, dfn, 
                              d_t, d_b, d_pos, d_old, d_r, d_ins, d_fnres, 
-                             d_fndone, r_t, r_b, r_ents, r_i, c_t, ci >>
+                             d_fndone, d_left, r_t, r_b, r_ents, r_i, c_t, ci >>
 
 DF2(self) == /\ pc[self] = "DF2"
              /\ d_r' = [d_r EXCEPT ![self] = IF kind[self] = "Compute" THEN FnResult(dfn[self], dv[self], NilV, FALSE) ELSE IF kind[self] \in {"LoadAndDelete", "Delete"} THEN <<NilV, TRUE>> ELSE <<dv[self], FALSE>>]
@@ -1342,8 +1353,8 @@ DF2(self) == /\ pc[self] = "DF2"
                              done, lres, rvis, pcnt, stack, hint, known, rz_t, 
                              rz_new, rz_b, rz_nb, rz_cnt, lk, l_t, l_b, l_c, 
                              l_cand, l_s, l_v, l_k, kind, dk, dv, dfn, d_t, 
-                             d_b, d_pos, d_old, d_ins, d_fnres, d_fndone, r_t, 
-                             r_b, r_ents, r_i, c_t, ci >>
+                             d_b, d_pos, d_old, d_ins, d_fnres, d_fndone, 
+                             d_left, r_t, r_b, r_ents, r_i, c_t, ci >>
 
 DI0(self) == /\ pc[self] = "DI0"
              /\ tabs' = [tabs EXCEPT ![d_t[self]].cells[d_b[self]][d_pos[self][1]][d_pos[self][2]].pres = TRUE,
@@ -1354,7 +1365,7 @@ DI0(self) == /\ pc[self] = "DI0"
                              known, rz_t, rz_new, rz_b, rz_nb, rz_cnt, lk, l_t, 
                              l_b, l_c, l_cand, l_s, l_v, l_k, kind, dk, dv, 
                              dfn, d_t, d_b, d_pos, d_old, d_r, d_ins, d_fnres, 
-                             d_fndone, r_t, r_b, r_ents, r_i, c_t, ci >>
+                             d_fndone, d_left, r_t, r_b, r_ents, r_i, c_t, ci >>
 
 DI1(self) == /\ pc[self] = "DI1"
              /\ IF Variant = "MapOf"
@@ -1369,7 +1380,7 @@ DI1(self) == /\ pc[self] = "DI1"
                              known, rz_t, rz_new, rz_b, rz_nb, rz_cnt, lk, l_t, 
                              l_b, l_c, l_cand, l_s, l_v, l_k, kind, dk, dv, 
                              dfn, d_t, d_b, d_pos, d_old, d_r, d_ins, d_fnres, 
-                             d_fndone, r_t, r_b, r_ents, r_i, c_t, ci >>
+                             d_fndone, d_left, r_t, r_b, r_ents, r_i, c_t, ci >>
 
 DI2(self) == /\ pc[self] = "DI2"
              /\ IF Variant = "Map"
@@ -1384,7 +1395,7 @@ DI2(self) == /\ pc[self] = "DI2"
                              known, rz_t, rz_new, rz_b, rz_nb, rz_cnt, lk, l_t, 
                              l_b, l_c, l_cand, l_s, l_v, l_k, kind, dk, dv, 
                              dfn, d_t, d_b, d_pos, d_old, d_r, d_ins, d_fnres, 
-                             d_fndone, r_t, r_b, r_ents, r_i, c_t, ci >>
+                             d_fndone, d_left, r_t, r_b, r_ents, r_i, c_t, ci >>
 
 DIu(self) == /\ pc[self] = "DIu"
              /\ tabs' = [tabs EXCEPT ![d_t[self]].lock[d_b[self]] = None]
@@ -1395,7 +1406,7 @@ DIu(self) == /\ pc[self] = "DIu"
                              rz_t, rz_new, rz_b, rz_nb, rz_cnt, lk, l_t, l_b, 
                              l_c, l_cand, l_s, l_v, l_k, kind, dk, dv, dfn, 
                              d_t, d_b, d_pos, d_old, d_r, d_ins, d_fnres, 
-                             d_fndone, r_t, r_b, r_ents, r_i, c_t, ci >>
+                             d_fndone, d_left, r_t, r_b, r_ents, r_i, c_t, ci >>
 
 DIa(self) == /\ pc[self] = "DIa"
              /\ IF SizeTarget = "modified"
@@ -1410,6 +1421,7 @@ DIa(self) == /\ pc[self] = "DIa"
              /\ d_ins' = [d_ins EXCEPT ![self] = Head(stack[self]).d_ins]
              /\ d_fnres' = [d_fnres EXCEPT ![self] = Head(stack[self]).d_fnres]
              /\ d_fndone' = [d_fndone EXCEPT ![self] = Head(stack[self]).d_fndone]
+             /\ d_left' = [d_left EXCEPT ![self] = Head(stack[self]).d_left]
              /\ kind' = [kind EXCEPT ![self] = Head(stack[self]).kind]
              /\ dk' = [dk EXCEPT ![self] = Head(stack[self]).dk]
              /\ dv' = [dv EXCEPT ![self] = Head(stack[self]).dv]
@@ -1432,8 +1444,8 @@ DG0(self) == /\ pc[self] = "DG0"
                              done, lres, cres, rvis, pcnt, stack, hint, known, 
                              rz_t, rz_new, rz_b, rz_nb, rz_cnt, lk, l_t, l_b, 
                              l_c, l_cand, l_s, l_v, l_k, kind, dk, dv, dfn, 
-                             d_t, d_b, d_pos, d_old, d_r, d_ins, d_fndone, r_t, 
-                             r_b, r_ents, r_i, c_t, ci >>
+                             d_t, d_b, d_pos, d_old, d_r, d_ins, d_fndone, 
+                             d_left, r_t, r_b, r_ents, r_i, c_t, ci >>
 
 DG1(self) == /\ pc[self] = "DG1"
              /\ IF tabs[d_t[self]].size > GrowAt[tabs[d_t[self]].nb]
@@ -1444,7 +1456,8 @@ DG1(self) == /\ pc[self] = "DG1"
                              hint, known, rz_t, rz_new, rz_b, rz_nb, rz_cnt, 
                              lk, l_t, l_b, l_c, l_cand, l_s, l_v, l_k, kind, 
                              dk, dv, dfn, d_t, d_b, d_pos, d_old, d_r, d_ins, 
-                             d_fnres, d_fndone, r_t, r_b, r_ents, r_i, c_t, ci >>
+                             d_fnres, d_fndone, d_left, r_t, r_b, r_ents, r_i, 
+                             c_t, ci >>
 
 DGu(self) == /\ pc[self] = "DGu"
              /\ tabs' = [tabs EXCEPT ![d_t[self]].lock[d_b[self]] = None]
@@ -1470,7 +1483,7 @@ DGu(self) == /\ pc[self] = "DGu"
                              fncalls, lres, cres, rvis, pcnt, lk, l_t, l_b, 
                              l_c, l_cand, l_s, l_v, l_k, kind, dk, dv, dfn, 
                              d_t, d_b, d_pos, d_old, d_r, d_ins, d_fnres, 
-                             d_fndone, r_t, r_b, r_ents, r_i, c_t, ci >>
+                             d_fndone, d_left, r_t, r_b, r_ents, r_i, c_t, ci >>
 
 DGg(self) == /\ pc[self] = "DGg"
              /\ pc' = [pc EXCEPT ![self] = "DC1"]
@@ -1479,7 +1492,8 @@ DGg(self) == /\ pc[self] = "DGg"
                              hint, known, rz_t, rz_new, rz_b, rz_nb, rz_cnt, 
                              lk, l_t, l_b, l_c, l_cand, l_s, l_v, l_k, kind, 
                              dk, dv, dfn, d_t, d_b, d_pos, d_old, d_r, d_ins, 
-                             d_fnres, d_fndone, r_t, r_b, r_ents, r_i, c_t, ci >>
+                             d_fnres, d_fndone, d_left, r_t, r_b, r_ents, r_i, 
+                             c_t, ci >>
 
 DF3(self) == /\ pc[self] = "DF3"
              /\ d_r' = [d_r EXCEPT ![self] = IF kind[self] = "Compute" THEN FnResult(dfn[self], dv[self], NilV, FALSE) ELSE IF kind[self] \in {"LoadAndDelete", "Delete"} THEN <<NilV, TRUE>> ELSE <<dv[self], FALSE>>]
@@ -1493,8 +1507,8 @@ DF3(self) == /\ pc[self] = "DF3"
                              done, lres, rvis, pcnt, stack, hint, known, rz_t, 
                              rz_new, rz_b, rz_nb, rz_cnt, lk, l_t, l_b, l_c, 
                              l_cand, l_s, l_v, l_k, kind, dk, dv, dfn, d_t, 
-                             d_b, d_pos, d_old, d_ins, d_fnres, d_fndone, r_t, 
-                             r_b, r_ents, r_i, c_t, ci >>
+                             d_b, d_pos, d_old, d_ins, d_fnres, d_fndone, 
+                             d_left, r_t, r_b, r_ents, r_i, c_t, ci >>
 
 DA1(self) == /\ pc[self] = "DA1"
              /\ tabs' = [tabs EXCEPT ![d_t[self]].cells[d_b[self]] = PutChain(tabs[d_t[self]].cells[d_b[self]], dk[self], d_r[self][1], 1)]
@@ -1505,7 +1519,7 @@ DA1(self) == /\ pc[self] = "DA1"
                              known, rz_t, rz_new, rz_b, rz_nb, rz_cnt, lk, l_t, 
                              l_b, l_c, l_cand, l_s, l_v, l_k, kind, dk, dv, 
                              dfn, d_t, d_b, d_pos, d_old, d_r, d_fnres, 
-                             d_fndone, r_t, r_b, r_ents, r_i, c_t, ci >>
+                             d_fndone, d_left, r_t, r_b, r_ents, r_i, c_t, ci >>
 
 DCu(self) == /\ pc[self] = "DCu"
              /\ tabs' = [tabs EXCEPT ![d_t[self]].lock[d_b[self]] = None]
@@ -1515,7 +1529,7 @@ DCu(self) == /\ pc[self] = "DCu"
                              known, rz_t, rz_new, rz_b, rz_nb, rz_cnt, lk, l_t, 
                              l_b, l_c, l_cand, l_s, l_v, l_k, kind, dk, dv, 
                              dfn, d_t, d_b, d_pos, d_old, d_r, d_ins, d_fnres, 
-                             d_fndone, r_t, r_b, r_ents, r_i, c_t, ci >>
+                             d_fndone, d_left, r_t, r_b, r_ents, r_i, c_t, ci >>
 
 DCr(self) == /\ pc[self] = "DCr"
              /\ pc' = [pc EXCEPT ![self] = Head(stack[self]).pc]
@@ -1527,6 +1541,7 @@ DCr(self) == /\ pc[self] = "DCr"
              /\ d_ins' = [d_ins EXCEPT ![self] = Head(stack[self]).d_ins]
              /\ d_fnres' = [d_fnres EXCEPT ![self] = Head(stack[self]).d_fnres]
              /\ d_fndone' = [d_fndone EXCEPT ![self] = Head(stack[self]).d_fndone]
+             /\ d_left' = [d_left EXCEPT ![self] = Head(stack[self]).d_left]
              /\ kind' = [kind EXCEPT ![self] = Head(stack[self]).kind]
              /\ dk' = [dk EXCEPT ![self] = Head(stack[self]).dk]
              /\ dv' = [dv EXCEPT ![self] = Head(stack[self]).dv]
@@ -1558,7 +1573,7 @@ R1(self) == /\ pc[self] = "R1"
                             known, rz_t, rz_new, rz_b, rz_nb, rz_cnt, lk, l_t, 
                             l_b, l_c, l_cand, l_s, l_v, l_k, kind, dk, dv, dfn, 
                             d_t, d_b, d_pos, d_old, d_r, d_ins, d_fnres, 
-                            d_fndone, r_ents, r_i, c_t, ci >>
+                            d_fndone, d_left, r_ents, r_i, c_t, ci >>
 
 R2(self) == /\ pc[self] = "R2"
             /\ IF r_b[self] < tabs[r_t[self]].nb
@@ -1575,7 +1590,7 @@ R2(self) == /\ pc[self] = "R2"
                             rz_t, rz_new, rz_b, rz_nb, rz_cnt, lk, l_t, l_b, 
                             l_c, l_cand, l_s, l_v, l_k, kind, dk, dv, dfn, d_t, 
                             d_b, d_pos, d_old, d_r, d_ins, d_fnres, d_fndone, 
-                            c_t, ci >>
+                            d_left, c_t, ci >>
 
 R2l(self) == /\ pc[self] = "R2l"
              /\ tabs[r_t[self]].lock[r_b[self]] = None
@@ -1586,7 +1601,7 @@ R2l(self) == /\ pc[self] = "R2l"
                              known, rz_t, rz_new, rz_b, rz_nb, rz_cnt, lk, l_t, 
                              l_b, l_c, l_cand, l_s, l_v, l_k, kind, dk, dv, 
                              dfn, d_t, d_b, d_pos, d_old, d_r, d_ins, d_fnres, 
-                             d_fndone, r_t, r_b, r_ents, r_i, c_t, ci >>
+                             d_fndone, d_left, r_t, r_b, r_ents, r_i, c_t, ci >>
 
 R2u(self) == /\ pc[self] = "R2u"
              /\ r_ents' = [r_ents EXCEPT ![self] = SetToSeq(LiveEntries(tabs[r_t[self]].cells[r_b[self]]))]
@@ -1598,7 +1613,7 @@ R2u(self) == /\ pc[self] = "R2u"
                              known, rz_t, rz_new, rz_b, rz_nb, rz_cnt, lk, l_t, 
                              l_b, l_c, l_cand, l_s, l_v, l_k, kind, dk, dv, 
                              dfn, d_t, d_b, d_pos, d_old, d_r, d_ins, d_fnres, 
-                             d_fndone, r_t, r_b, c_t, ci >>
+                             d_fndone, d_left, r_t, r_b, c_t, ci >>
 
 R3(self) == /\ pc[self] = "R3"
             /\ IF r_i[self] <= Len(r_ents[self])
@@ -1618,7 +1633,7 @@ R3(self) == /\ pc[self] = "R3"
                             known, rz_t, rz_new, rz_b, rz_nb, rz_cnt, lk, l_t, 
                             l_b, l_c, l_cand, l_s, l_v, l_k, kind, dk, dv, dfn, 
                             d_t, d_b, d_pos, d_old, d_r, d_ins, d_fnres, 
-                            d_fndone, r_ents, c_t, ci >>
+                            d_fndone, d_left, r_ents, c_t, ci >>
 
 rangeAll(self) == R1(self) \/ R2(self) \/ R2l(self) \/ R2u(self)
                      \/ R3(self)
@@ -1647,7 +1662,7 @@ CL1(self) == /\ pc[self] = "CL1"
                              done, fncalls, lres, cres, rvis, pcnt, lk, l_t, 
                              l_b, l_c, l_cand, l_s, l_v, l_k, kind, dk, dv, 
                              dfn, d_t, d_b, d_pos, d_old, d_r, d_ins, d_fnres, 
-                             d_fndone, r_t, r_b, r_ents, r_i, ci >>
+                             d_fndone, d_left, r_t, r_b, r_ents, r_i, ci >>
 
 CL2(self) == /\ pc[self] = "CL2"
              /\ pc' = [pc EXCEPT ![self] = Head(stack[self]).pc]
@@ -1658,7 +1673,7 @@ CL2(self) == /\ pc[self] = "CL2"
                              known, rz_t, rz_new, rz_b, rz_nb, rz_cnt, lk, l_t, 
                              l_b, l_c, l_cand, l_s, l_v, l_k, kind, dk, dv, 
                              dfn, d_t, d_b, d_pos, d_old, d_r, d_ins, d_fnres, 
-                             d_fndone, r_t, r_b, r_ents, r_i, ci >>
+                             d_fndone, d_left, r_t, r_b, r_ents, r_i, ci >>
 
 clearMap(self) == CL1(self) \/ CL2(self)
 
@@ -1676,7 +1691,7 @@ Loop(self) == /\ pc[self] = "Loop"
                               rz_new, rz_b, rz_nb, rz_cnt, lk, l_t, l_b, l_c, 
                               l_cand, l_s, l_v, l_k, kind, dk, dv, dfn, d_t, 
                               d_b, d_pos, d_old, d_r, d_ins, d_fnres, d_fndone, 
-                              r_t, r_b, r_ents, r_i, c_t >>
+                              d_left, r_t, r_b, r_ents, r_i, c_t >>
 
 Disp(self) == /\ pc[self] = "Disp"
               /\ IF Op(self).op = "Load"
@@ -1702,8 +1717,8 @@ Disp(self) == /\ pc[self] = "Disp"
                          /\ pc' = [pc EXCEPT ![self] = "L1"]
                          /\ UNCHANGED << cres, rvis, kind, dk, dv, dfn, d_t, 
                                          d_b, d_pos, d_old, d_r, d_ins, 
-                                         d_fnres, d_fndone, r_t, r_b, r_ents, 
-                                         r_i, c_t >>
+                                         d_fnres, d_fndone, d_left, r_t, r_b, 
+                                         r_ents, r_i, c_t >>
                     ELSE /\ IF Op(self).op = "Clear"
                                THEN /\ stack' = [stack EXCEPT ![self] = << [ procedure |->  "clearMap",
                                                                              pc        |->  "Fin",
@@ -1714,8 +1729,8 @@ Disp(self) == /\ pc[self] = "Disp"
                                     /\ UNCHANGED << cres, rvis, kind, dk, dv, 
                                                     dfn, d_t, d_b, d_pos, 
                                                     d_old, d_r, d_ins, d_fnres, 
-                                                    d_fndone, r_t, r_b, r_ents, 
-                                                    r_i >>
+                                                    d_fndone, d_left, r_t, r_b, 
+                                                    r_ents, r_i >>
                                ELSE /\ IF Op(self).op = "Range"
                                           THEN /\ rvis' = [rvis EXCEPT ![self] = <<>>]
                                                /\ stack' = [stack EXCEPT ![self] = << [ procedure |->  "rangeAll",
@@ -1735,7 +1750,8 @@ Disp(self) == /\ pc[self] = "Disp"
                                                                d_b, d_pos, 
                                                                d_old, d_r, 
                                                                d_ins, d_fnres, 
-                                                               d_fndone >>
+                                                               d_fndone, 
+                                                               d_left >>
                                           ELSE /\ IF Op(self).op = "Size"
                                                      THEN /\ cres' = [cres EXCEPT ![self] = [rv |-> NilV, ok |-> FALSE]]
                                                           /\ pc' = [pc EXCEPT ![self] = "Fin"]
@@ -1751,7 +1767,8 @@ Disp(self) == /\ pc[self] = "Disp"
                                                                           d_r, 
                                                                           d_ins, 
                                                                           d_fnres, 
-                                                                          d_fndone >>
+                                                                          d_fndone, 
+                                                                          d_left >>
                                                      ELSE /\ /\ dfn' = [dfn EXCEPT ![self] = Op(self).fn]
                                                              /\ dk' = [dk EXCEPT ![self] = Op(self).k]
                                                              /\ dv' = [dv EXCEPT ![self] = Op(self).v]
@@ -1766,6 +1783,7 @@ Disp(self) == /\ pc[self] = "Disp"
                                                                                                       d_ins     |->  d_ins[self],
                                                                                                       d_fnres   |->  d_fnres[self],
                                                                                                       d_fndone  |->  d_fndone[self],
+                                                                                                      d_left    |->  d_left[self],
                                                                                                       kind      |->  kind[self],
                                                                                                       dk        |->  dk[self],
                                                                                                       dv        |->  dv[self],
@@ -1779,6 +1797,7 @@ Disp(self) == /\ pc[self] = "Disp"
                                                           /\ d_ins' = [d_ins EXCEPT ![self] = FALSE]
                                                           /\ d_fnres' = [d_fnres EXCEPT ![self] = <<NilV, FALSE>>]
                                                           /\ d_fndone' = [d_fndone EXCEPT ![self] = FALSE]
+                                                          /\ d_left' = [d_left EXCEPT ![self] = FALSE]
                                                           /\ pc' = [pc EXCEPT ![self] = "DC0"]
                                                           /\ cres' = cres
                                                /\ UNCHANGED << rvis, r_t, r_b, 
@@ -1805,7 +1824,7 @@ Fin(self) == /\ pc[self] = "Fin"
                              known, rz_t, rz_new, rz_b, rz_nb, rz_cnt, lk, l_t, 
                              l_b, l_c, l_cand, l_s, l_v, l_k, kind, dk, dv, 
                              dfn, d_t, d_b, d_pos, d_old, d_r, d_ins, d_fnres, 
-                             d_fndone, r_t, r_b, r_ents, r_i, c_t, ci >>
+                             d_fndone, d_left, r_t, r_b, r_ents, r_i, c_t, ci >>
 
 thr(self) == Loop(self) \/ Disp(self) \/ Fin(self)
 
